@@ -1,0 +1,46 @@
+//go:build verif
+
+package verifhook
+
+import (
+	"time"
+
+	"github.com/linkedin/Burrow/core/internal/notifier"
+	"github.com/linkedin/Burrow/core/protocol"
+)
+
+// NotifierModule is notifier.Module (the interface notifier modules implement).
+type NotifierModule = notifier.Module
+
+// Notifier is a handle on a real notifier.Coordinator.
+type Notifier struct {
+	c *notifier.Coordinator
+}
+
+// NewNotifier builds a coordinator around the given modules.
+func NewNotifier(app *protocol.ApplicationContext, modules map[string]NotifierModule, minInterval int64) *Notifier {
+	return &Notifier{c: notifier.VerifNewCoordinator(app, modules, minInterval)}
+}
+
+// AddGroup registers a group record.
+func (n *Notifier) AddGroup(cluster, group string, lastEvalAgo time.Duration) {
+	n.c.VerifAddGroup(cluster, group, lastEvalAgo)
+}
+
+// DeleteGroup removes a group record.
+func (n *Notifier) DeleteGroup(cluster, group string) { n.c.VerifDeleteGroup(cluster, group) }
+
+// CheckAndSend is checkAndSendResponseToModules, synchronously.
+func (n *Notifier) CheckAndSend(response *protocol.ConsumerGroupStatus) { n.c.VerifCheckAndSend(response) }
+
+// ShiftTimes moves stored instants back by d.
+func (n *Notifier) ShiftTimes(d time.Duration) { n.c.VerifShiftTimes(d) }
+
+// StartEvalLoops starts manageEvalLoop.
+func (n *Notifier) StartEvalLoops() { n.c.VerifStartEvalLoops() }
+
+// StopEvalLoops makes evaluation loops exit.
+func (n *Notifier) StopEvalLoops() { n.c.VerifStopEvalLoops() }
+
+// RunEvaluatorRequests runs sendEvaluatorRequests for d.
+func (n *Notifier) RunEvaluatorRequests(d time.Duration) { n.c.VerifRunEvaluatorRequests(d) }
